@@ -41,24 +41,24 @@ type Pkg struct {
 	set *SetModel
 	get *GetModel
 	// emission model of Vector (vocab.go / semit.go)
-	emitModel *EmitModel
-	pm        *parseModel
-	api       *apiScope
+	emitModel  *EmitModel
+	pm         *parseModel
+	api        *apiScope
 	varWritten map[*types.Var]bool
 }
 
 type World struct {
 	normalized bool // this world is the source-normalised variant (normalize.go)
-	Repo  string
-	Pkgs  map[string]*Pkg
-	Order []string
-	Files []fileHash
-	Fset  *token.FileSet
-	All   []*packages.Package
-	Tier  string
-	Seed  int64
-	Verif string
-	Extra map[string]any
+	Repo       string
+	Pkgs       map[string]*Pkg
+	Order      []string
+	Files      []fileHash
+	Fset       *token.FileSet
+	All        []*packages.Package
+	Tier       string
+	Seed       int64
+	Verif      string
+	Extra      map[string]any
 	// Wants reports whether the property being decided keeps obligations of a
 	// rule (expensive rules are skipped when nobody keeps them)
 	Wants func(rule string) bool
